@@ -56,6 +56,16 @@ pub fn deserialize(context: &mut DeserializationContext<'_>) -> (r: Result<Self>
                 // the constructor is selected by the stored index alone
                 && (r is Ok ==> r->Ok_0.ctor_index() == i)%(cases)s,
         }),
+        // enum record with evolution header (stored version >= 1)
+        old(context).remaining().len() >= 1 && old(context).remaining()[0] >= 1 ==> (match adt_header(old(context).remaining().skip(1), old(context).state.val().strs(), old(context).remaining()[0] as nat + 1) {
+            None => r is Err,
+            Some(h) => match unleb_res(%(w0)s) {
+                Err(_) => r is Err,
+                Ok(i) => ((%(bad)s) ==> r is Err)
+                    && (r is Ok ==> r->Ok_0.ctor_index() == i
+                            && final(context).remaining() =~= old(context).remaining().skip(1 + h.total as int))%(hcases)s,
+            },
+        }),
 %(body)s
 }
 """
@@ -298,6 +308,15 @@ def gen_enum_v0(d, expanded, H):
         '\n                && (i == %d ==> match dec_%s(%s, old(context).state.val().strs()) {\n'
         '                        Dec::Ok { v, n, t } => r is Ok && r->Ok_0.gv_%s() == v && final(context).remaining() =~= %s.skip(n as int) && final(context).state.val().strs() == t,\n'
         '                        Dec::Err => r is Err,\n                    })' % (idx, c['N'], rest, c['V'], rest)
-        for idx, c in sorted(case_specs.items())) if (K == 1 and ENUM_LEVEL_CASES) else ''
-    out.append(DE_TMPL % dict(X=X, bad=bad, body=db, cases=cases, case_fns='\n'.join(case_fns)))
+        for idx, c in sorted(case_specs.items())) if ENUM_LEVEL_CASES else ''
+    # stored form with a header (written by a definition of the enum that has evolution steps):
+    # index and case are the head of chunk 0, the stream ends up behind all chunks
+    w0 = 'old(context).remaining().skip(1).subrange(h.wins[0].0 as int, h.wins[0].1 as int)'
+    rest1 = '%s.skip(unleb_used(%s) as int)' % (w0, w0)
+    hcases = ''.join(
+        '\n                    && (i == %d ==> match dec_%s(%s, h.t) {\n'
+        '                            Dec::Ok { v, n, t } => r is Ok && r->Ok_0.gv_%s() == v && final(context).state.val().strs() == t,\n'
+        '                            Dec::Err => r is Err,\n                        })' % (idx, c['N'], rest1, c['V'])
+        for idx, c in sorted(case_specs.items())) if ENUM_LEVEL_CASES else ''
+    out.append(DE_TMPL % dict(X=X, bad=bad, body=db, cases=cases, hcases=hcases, w0=w0, case_fns='\n'.join(case_fns)))
     return '\n'.join(out), sorted(lits)
